@@ -193,6 +193,17 @@ func c16Record(id, size int, timeMs int64) *pack.LogSinkPack {
 	p.Category = "c16"
 	p.Line = int64(id)
 	p.Content = "rec-" + strconv.Itoa(id) + "-" + strings.Repeat("q", size)
+	if id%4 == 1 {
+		// text that does not compress (log lines are not always repetitive)
+		var sb strings.Builder
+		sb.WriteString("rec-" + strconv.Itoa(id) + "-")
+		x := uint64(id)*0x9e3779b97f4a7c15 + 1
+		for sb.Len() < size+8 {
+			x = simrt.Mix64(x, uint64(sb.Len()))
+			sb.WriteString(strconv.FormatUint(x, 36))
+		}
+		p.Content = sb.String()
+	}
 	if id%5 == 3 {
 		// multi-byte content: sizes in bytes and in characters differ
 		p.Content = "rec-" + strconv.Itoa(id) + "-" + strings.Repeat("ü", size/2) + strings.Repeat("한", size%7)
